@@ -71,6 +71,12 @@ func genSegments(r *h.Rand, d delims) ([]seg, string, string) {
 				src := d.left()
 				if s.trimL {
 					src += "- "
+				} else if r.Chance(15) {
+					// not a trim marker: a minus followed by something other than one space is a sign / unary minus
+					dg := fmt.Sprint(1 + r.Intn(9))
+					s.marker = "-" + dg
+					inner = ""
+					body = "-" + r.Pick([]string{"", "\t", "\n", "\r", "\t ", "\n  "}) + dg
 				}
 				src += inner + body + r.Pick([]string{"", " ", "\n "})
 				if s.trimR {
